@@ -800,6 +800,21 @@ void checkOracles(const Desc& d, const Obs& o, RunResult& r) {
                         if (sysout->text.find(op.s2) == Str::npos) r.fail("C16", "value", sigOf("where", "system-out"), sfmt("printed text %s not found in unescaped system-out", Json::S(op.s2).dump().c_str()));
                     }
                 }
+                // ... and it is made of whole printed texts: a contiguous run of the texts handed to the output, none of them cut (whether a report carries
+                // the output of its own group only or of everything printed so far is the writer's choice)
+                if (sysout && !sysout->text.empty() && !c.separate) {
+                    bool crTail = false; for (size_t q = 0; q < o.printedChunks.size(); q++) if (!o.printedChunks[q].empty() && o.printedChunks[q][o.printedChunks[q].size() - 1] == '\r') crTail = true;
+                    if (!crTail) {
+                        Str stream; Vec<size_t> bounds; for (size_t q = 0; q < o.printedChunks.size(); q++) { bounds.push_back(stream.size()); stream += o.printedChunks[q]; } bounds.push_back(stream.size());
+                        bool whole = false; size_t at = 0;
+                        while (!whole && (at = stream.find(sysout->text, at)) != Str::npos) {
+                            if (std::find(bounds.begin(), bounds.end(), at) != bounds.end() && std::find(bounds.begin(), bounds.end(), at + sysout->text.size()) != bounds.end()) whole = true;
+                            at++;
+                        }
+                        if (!whole) r.fail("C16", "value", sigOf("where", "system-out is not a run of whole printed texts"), sfmt("group %s: system-out %s", group.c_str(), Json::S(sysout->text.substr(0, 200)).dump().c_str()));
+                        else probe("system_out_made_of_whole_texts");
+                    }
+                }
                 i = groupEndEv + 1;
             }
         }
